@@ -1259,7 +1259,8 @@ fn main() {
         work.push((format!("rand:{i}"), gen_random(&mut r)));
     }
     work.retain(|(id, _)| run.args.wants(id));
-    run.exhaustive = thorough;
+    // `exhaustive` only when every finite table is enumerated completely (HW_FULL / escalation)
+    run.exhaustive = thorough && (std::env::var("HW_FULL").is_ok() || run.args.scale > 1);
     if thorough {
         run.note(format!(
             "thorough: enumerated completely: the {} tamper-kind x namespace-kind x mode x refs_at rows and the {} delegate-state^k x threshold x local-role rows for k <= 2; k = 3: {} (all 1512 rows with HW_FULL=1; the complete enumeration, 2432 cases, was run on 2026-09-22 with 0 oracle failures outside the recorded class and 0 correspondence mismatches)",
